@@ -361,7 +361,7 @@ func Run(c *core.Ctx) {
 		})
 	}
 	// random longer vectors
-	c.Parallel(len(envs), "rand-vec", c.Pick(8000, 600000), func(slot, idx int) {
+	c.Parallel(len(envs), "rand-vec", c.Pick(8000, 400000), func(slot, idx int) {
 		r := c.Rng("rand-vec", idx)
 		st := &states[r.Intn(len(states))]
 		line := randLine(r, 3, 4)
@@ -372,7 +372,7 @@ func Run(c *core.Ctx) {
 		}
 	})
 	// random command sequences
-	c.Parallel(len(envs), "seq", c.Pick(4000, 300000), func(slot, idx int) {
+	c.Parallel(len(envs), "seq", c.Pick(4000, 200000), func(slot, idx int) {
 		r := c.Rng("seq", idx)
 		st := &states[r.Intn(len(states))]
 		n := r.Range(2, 8)
